@@ -424,7 +424,7 @@ class GirAutomata:
                 for nm, a in zip(names, t.get('args') or []):
                     if a is not None and nm is not None:
                         params[nm] = (a, env)
-            consts = self.g.generic_env(t) if t.get('gargs') else {}
+            consts = self.g.value_env(t)
             env2 = {'params': params, 'consts': consts, 'stack': env['stack'] + (fn,), 'fn': fn}
             return self.scoped(nfa, ft, env2)
         if op == 'param':
